@@ -383,6 +383,29 @@ def check_mode(facts):
             r.fail(key, "%s reaches only %s but is called from %s without regard to the unicode flag: classes under /i (legacy mode) are closed "
                         "under simple case folding instead of toUpperCase" % (fn, sorted(t), sorted(callers)[:3]), facts.loc(fn))
     r.floor("exported_case_functions", n, 3)
+    # the canonicaliser of a single code point answers from its table: a function of unicode.rs that binary-searches FOLDS or
+    # TO_UPPERCASE for its argument has no return that bypasses the search (a hand-written 'fast path' for some range is a second,
+    # unchecked copy of part of the table: U+00FF and U+00B5 have upper-case partners outside Latin-1)
+    ns = 0
+    for fn in sorted(facts.body_names()):
+        if not fn.startswith("unicode::") or "{closure" in fn or "::tests::" in fn:
+            continue
+        b = facts.body(fn)
+        if not re.match(r"^u(8|16|32|64|size)$", b.local_ty(0) or ""):
+            continue
+        searches = [bb for bb, t in b.iter_calls() if (t.get("callee") or "").split("::")[-1].startswith("binary_search")]
+        txt = json.dumps([b.j] + b.j.get("promoted", []))
+        if not searches or not ("unicodetables::FOLDS" in txt or "unicodetables::TO_UPPERCASE" in txt):
+            continue
+        ns += 1
+        key = "%s answers from its table on every path" % fn
+        rets = {x for x in b.reachable() if b.blocks[x]["t"]["k"] == "return"}
+        if 0 not in searches and b.reach_from(0, avoid=set(searches)) & rets:
+            r.fail(key, "a path returns from %s without searching the case table (a hand-written fast path): that path is a second copy "
+                        "of part of the table which nothing checks against it" % fn.split("::")[-1], facts.loc(fn))
+        else:
+            r.ok(key, "every return passes the table search")
+    r.floor("table_searching_canonicalisers", ns, 2)
     return r
 
 
@@ -676,8 +699,17 @@ def check_wiring(facts):
                         return [x for q in pt.get("pats", []) for x in inner(q)]
                     return [HU.short(v) for v in HU.pat_variants(pt)]
                 vs = inner(a["pat"]) or ["_"]
-                lookups = {c.split("::")[-1] for c in HU.calls_in(a["body"])
-                           if re.search(r"_from_str$|_ranges$|_sets$", c.split("::")[-1])}
+                def lookups_in(body_, depth=0):
+                    out_ = set()
+                    for c in HU.calls_in(body_):
+                        # a piece split off this function (new, called only from here) is looked through
+                        if depth < 3 and c in facts.hir and c != fnp and "unicodetables" not in c and c not in core.fn_names_table() \
+                                and facts.owner_of(c) == fnp:
+                            out_ |= lookups_in(facts.hir[c]["body"], depth + 1)
+                        elif re.search(r"_from_str$|_ranges$|_sets$", c.split("::")[-1]):
+                            out_.add(c.split("::")[-1])
+                    return out_
+                lookups = lookups_in(a["body"])
                 for v in vs:
                     seen_variants.add(v)
                     key = "unicode_property_from_str name=%s" % v
@@ -724,14 +756,24 @@ def check_wiring(facts):
                        for st in blk["s"]):
                     noneret.add(bi)
                 t_ = blk["t"]
-                if t_["k"] == "call" and t_["dest"]["l"] == 0 and not t_["dest"]["p"] and (t_.get("callee") or "").endswith("FromResidual::from_residual"):
-                    noneret.add(bi)
+                if t_["k"] == "call" and t_["dest"]["l"] == 0 and not t_["dest"]["p"] and (
+                        (t_.get("callee") or "").endswith("FromResidual::from_residual") or facts.has_body(t_.get("callee") or "")):
+                    noneret.add(bi)     # `?`, or the verdict of a local function returned as it is (it may be None)
             noneret &= b.reach_from(entry)
             probs = []
             nk = 0
             for kind, label in (("GeneralCategory", "General_Category value"), ("Binary", "binary property")):
-                blocks = {bb_ for bb_, t_ in b.iter_calls() if (t_.get("callee") or "").endswith("_from_str") and kind in b.local_ty(t_["dest"]["l"])
-                          and bb_ in b.reach_from(entry)}
+                def asks(body_, t_, depth=0):
+                    cal_ = t_.get("callee") or ""
+                    if cal_.endswith("_from_str") and kind in body_.local_ty(t_["dest"]["l"]):
+                        return True
+                    # a piece split off this function: what it asks counts
+                    if depth < 3 and facts.has_body(cal_) and cal_ != fnp and "unicodetables" not in cal_ and cal_ not in core.fn_names_table() \
+                            and facts.owner_of(cal_) == fnp:
+                        pb_ = facts.body(cal_)
+                        return any(asks(pb_, t2_, depth + 1) for _, t2_ in pb_.iter_calls())
+                    return False
+                blocks = {bb_ for bb_, t_ in b.iter_calls() if asks(b, t_) and bb_ in b.reach_from(entry)}
                 if not blocks:
                     probs.append("no %s lookup on the lone-name branch" % label)
                     continue
